@@ -711,7 +711,8 @@ def conv_tc_type(t):
         tags = tuple(sorted(r[0][1] for r in t[1]))
         return ("enum", tags) if t[2] == "closed" else ("enum-open", tags)
     if h == "forall":
-        return ("poly",)
+        # the quantified type of an annotated helper: its body, with the quantified names rigid
+        return conv_tc_type(t[3])
     return None
 
 
@@ -871,3 +872,208 @@ def direct_oracle(prog, line):
             return "allowed-error", "precondition of a library function (negative blame on its contract)"
         return "violation", "library contract blames the library function itself (positive polarity, label in %s)" % f
     return "allowed-error", cls
+
+
+# ---------------------------------------------------------------------- certificates from the real typechecker
+
+class CertError(Exception):
+    pass
+
+
+def default_type(t):
+    """resolved type of the typechecker -> closed fragment type (unresolved variables := Number,
+    open rows closed), or None outside the fragment"""
+    if t is None:
+        return None
+    k = t[0]
+    if k in ("any", "rigid"):
+        return NUM
+    if k in ("num", "str", "bool", "dyn"):
+        return t
+    if k == "arr":
+        u = default_type(t[1])
+        return ("arr", u) if u else None
+    if k == "fun":
+        a, b = default_type(t[1]), default_type(t[2])
+        return ("fun", a, b) if a and b else None
+    if k in ("rec", "rec-open"):
+        fs = []
+        for f, u in t[1]:
+            d = default_type(u)
+            if not d:
+                return None
+            fs.append((f, d))
+        return ("rec", tuple(fs))
+    if k in ("enum", "enum-open"):
+        return ("enum", tuple(t[1]))
+    return None
+
+
+def rigid_type(t, names):
+    """inside the body of a polymorphic helper: rigid variables -> de Bruijn tvars"""
+    k = t[0]
+    if k == "rigid":
+        return ("tvar", names.index(t[1])) if t[1] in names else NUM
+    if k == "any":
+        return NUM
+    if k == "arr":
+        return ("arr", rigid_type(t[1], names))
+    if k == "fun":
+        return ("fun", rigid_type(t[1], names), rigid_type(t[2], names))
+    return default_type(t)
+
+
+def match_poly(poly, inst, out):
+    """match the body of a polymorphic type (with ("tvar", i)) against an instance; fills out[i]"""
+    if poly[0] == "tvar":
+        out.setdefault(poly[1], inst)
+        return True
+    if poly[0] != inst[0]:
+        return False
+    if poly[0] in ("arr",):
+        return match_poly(poly[1], inst[1], out)
+    if poly[0] == "fun":
+        return match_poly(poly[1], inst[1], out) and match_poly(poly[2], inst[2], out)
+    return True
+
+
+class CertBuilder:
+    """Builds the annotated term of Types/Checker.v for a generated AST using only the types the real
+    typechecker resolved for its nodes (harness `tc` rows) -- not the generator's intentions."""
+
+    def __init__(self, terms, idents):
+        self.by = {}
+        for (s, e, kind, ty) in terms:
+            self.by[(s, e, kind)] = ty
+        self.ids = {}
+        for (s, e, name, ty) in idents:
+            self.ids[(s, e)] = ty
+        self.rigid = None     # names of the quantified variables while inside a helper's body
+
+    def kind_of(self, nd):
+        if nd.k == "prim2":
+            return "PrimOpApp" if nd.a[0] in INFIX else "App"
+        if nd.k == "prim1":
+            return "PrimOpApp" if nd.a[0] == "not" else "App"
+        if nd.k in ("and", "or"):
+            return "App"
+        return KIND_OF.get(nd.k)
+
+    def raw(self, nd):
+        kind = self.kind_of(nd)
+        s, e = nd.span
+        ty = self.by.get((s, e, kind))
+        if ty is None:
+            ty = self.by.get((s + 1, e - 1, kind))
+        if ty is None:
+            raise CertError("the typechecker reported no type for the %s node at %d-%d" % (nd.k, s, e))
+        t = conv_tc_type(ty)
+        if t is None:
+            raise CertError("type outside the fragment at %s %d-%d: %r" % (nd.k, s, e, ty))
+        return t
+
+    def ty(self, nd):
+        t = self.raw(nd)
+        d = rigid_type(t, self.rigid) if self.rigid is not None else default_type(t)
+        if d is None:
+            raise CertError("type outside the fragment at %s %d-%d" % (nd.k, nd.span[0], nd.span[1]))
+        return d
+
+    def build(self, n):
+        k, a = n.k, n.a
+        if k == "num":
+            return "(anum %d %d)" % tuple(a)
+        if k == "str":
+            return "(astr %s)" % sstr(a[0])
+        if k == "bool":
+            return "(abool %s)" % ("true" if a[0] else "false")
+        if k == "var":
+            return '(avar "%s" ())' % a[0]
+        if k == "tag":
+            t = self.ty(n)
+            if t[0] != "enum":
+                raise CertError("tag typed %r" % (t,))
+            return '(atag "%s" (%s))' % (a[0], " ".join('"%s"' % x for x in t[1]))
+        if k == "lam":
+            t = self.ty(n)
+            if t[0] != "fun":
+                raise CertError("lambda typed %r" % (t,))
+            return '(alam "%s" %s %s)' % (a[0], ty_sexp(t[1]), self.build(a[1]))
+        if k == "app":
+            f, arg = a
+            if f.k == "var" and f.a[0] in POLY:
+                nq = POLY[f.a[0]][0]
+                body = POLY[f.a[0]][2]().ty
+                inst_ty = ("fun", self.ty(arg), self.ty(n))
+                out = {}
+                if not match_poly(body, inst_ty, out):
+                    raise CertError("instance of %s does not match: %r" % (f.a[0], inst_ty))
+                insts = [out.get(nq - 1 - i, NUM) for i in range(nq)]     # outermost quantifier first
+                return '(aapp (avar "%s" %s) %s)' % (f.a[0], insts_sexp(insts), self.build(arg))
+            return "(aapp %s %s)" % (self.build(f), self.build(arg))
+        if k == "let":
+            e = self.build(a[2])
+            if a[1] is not None:
+                e = "(aannt %s %s)" % (e, ty_sexp(a[1]))
+            return '(alet "%s" 0 %s %s)' % (a[0], e, self.build(a[3]))
+        if k == "plet":
+            nq = a[1]
+            self.rigid = ["b", "a"][-nq:] if nq == 2 else ["a"]
+            try:
+                body = self.build(a[3])
+            finally:
+                self.rigid = None
+            return '(alet "%s" %d %s %s)' % (a[0], nq, body, self.build(a[4]))
+        if k == "if":
+            return "(aif %s %s %s)" % tuple(self.build(x) for x in a)
+        if k == "arr":
+            t = self.ty(n)
+            if t[0] != "arr":
+                raise CertError("array typed %r" % (t,))
+            return "(aarr %s (%s))" % (ty_sexp(t[1]), " ".join(self.build(e) for e in a[0]))
+        if k == "rec":
+            return "(arec %s)" % " ".join('("%s" %s)' % (f, self.build(e)) for f, e in a[0])
+        if k == "proj":
+            return '(aproj %s "%s")' % (self.build(a[0]), a[1])
+        if k == "match":
+            bs = "(%s)" % " ".join('("%s" %s)' % (t, self.build(b)) for t, b in a[1])
+            d = (" " + self.build(a[2])) if a[2] is not None else ""
+            return "(amatch %s %s %s%s)" % (self.build(a[0]), ty_sexp(self.ty(n)), bs, d)
+        if k == "prim2":
+            nm = a[0]
+            if nm == "arrcat":
+                insts = [self.elem(self.ty(n))]
+            elif nm == "arrmap":
+                insts = [self.elem(self.ty(a[2])), self.elem(self.ty(n))]
+            elif nm == "arrat":
+                insts = [self.elem(self.ty(a[2]))]
+            elif nm == "eq":
+                insts = [self.ty(a[1]), self.ty(a[2])]
+            else:
+                insts = []
+            return "(aapp (aapp (aprim %s %s) %s) %s)" % (nm, insts_sexp(insts), self.build(a[1]), self.build(a[2]))
+        if k == "prim1":
+            insts = [self.elem(self.ty(a[1]))] if a[0] == "arrlen" else []
+            return "(aapp (aprim %s %s) %s)" % (a[0], insts_sexp(insts), self.build(a[1]))
+        if k == "and":
+            return "(aif %s %s (abool false))" % (self.build(a[0]), self.build(a[1]))
+        if k == "or":
+            return "(aif %s (abool true) %s)" % (self.build(a[0]), self.build(a[1]))
+        if k == "annt":
+            return "(aannt %s %s)" % (self.build(a[0]), ty_sexp(n.ty if n.x is None else n.x))
+        if k == "hole":
+            return "(acast (auntyped %s) %s)" % (to_sexp(a[0]), ty_sexp(n.ty))
+        raise CertError("node %s" % k)
+
+    def elem(self, t):
+        if t[0] != "arr":
+            raise CertError("array expected, typed %r" % (t,))
+        return t[1]
+
+
+def cert_from_tc(prog, terms, idents):
+    """-> (certificate s-expression, None) or (None, reason)"""
+    try:
+        return CertBuilder(terms, idents).build(prog["ast"]), None
+    except CertError as ex:
+        return None, str(ex)
